@@ -149,7 +149,7 @@ func c07() []*Ob {
 					}
 				}
 				if w := c.Fn("(*fracmanager.proxyFrac).WaitWriteIdle"); w != nil {
-					if len(CallsIn(w, OnField(Callee("(*sync.WaitGroup).Wait"), "fracmanager.proxyFrac", "indexWg"))) == 0 {
+					if !Current.HasCall(w, OnField(Callee("(*sync.WaitGroup).Wait"), "fracmanager.proxyFrac", "indexWg")) {
 						c.Violation("order:WaitWriteIdle:wait", w.Pos(), "WaitWriteIdle no longer waits on indexWg")
 					} else {
 						c.Site(w.Pos(), "WaitWriteIdle waits on indexWg")
@@ -338,7 +338,7 @@ func c07() []*Ob {
 							c.Violation("prov:activeDataProvider.Search:clamp", call.Pos(), "the search range handed to IndexSearch is not clamped by max(From, info.From) / min(To, info.To): ids outside the published range could be returned and then not fetched")
 						}
 					}
-					if len(CallsIn(fn, is)) == 0 {
+					if !Current.HasCall(fn, is) {
 						c.Undecided("activeDataProvider.Search:noIndexSearch", fn.Pos(), "activeDataProvider.Search no longer calls processor.IndexSearch")
 					}
 				}
@@ -384,7 +384,7 @@ func c07() []*Ob {
 						unlocks := false
 						if mc, ok := rel.(*ssa.MakeClosure); ok {
 							if cf, ok := mc.Fn.(*ssa.Function); ok {
-								unlocks = len(CallsIn(cf, OnFieldAny(Callee("(*sync.RWMutex).RUnlock"), "useMu"))) > 0
+								unlocks = Current.HasCall(cf, OnFieldAny(Callee("(*sync.RWMutex).RUnlock"), "useMu"))
 							}
 						}
 						switch {
@@ -458,21 +458,25 @@ func c07() []*Ob {
 			Desc: "hand-over: proxyFrac.Seal stores f.sealed and clears f.active under one useMu.Lock hold and releases the active fraction only afterwards; FracManager.Append returns nil only after a successful proxyFrac.Append and otherwise retries or returns ctx.Err()",
 			Check: func(c *Ctx) {
 				if fn := c.Fn("(*fracmanager.proxyFrac).Seal"); fn != nil {
-					li := Locksets(fn, nil)
+					// the two stores may live in Seal itself or in a helper it calls
+					home := c.P.Locate(fn, FieldStore("fracmanager.proxyFrac", "sealed"))
 					var stS, stA ssa.Instruction
-					for _, in := range InstrsIn(fn, FieldStore("fracmanager.proxyFrac", "sealed")) {
-						stS = in
-					}
-					for _, in := range InstrsIn(fn, FieldStore("fracmanager.proxyFrac", "active")) {
-						stA = in
+					if home != nil {
+						for _, in := range InstrsIn(home, FieldStore("fracmanager.proxyFrac", "sealed")) {
+							stS = in
+						}
+						for _, in := range InstrsIn(home, FieldStore("fracmanager.proxyFrac", "active")) {
+							stA = in
+						}
 					}
 					if stS == nil || stA == nil {
-						c.Undecided("proxyFrac.Seal:handover-stores", fn.Pos(), "proxyFrac.Seal no longer stores both f.sealed and f.active")
+						c.Undecided("proxyFrac.Seal:handover-stores", fn.Pos(), "proxyFrac.Seal (and its helpers) no longer stores both f.sealed and f.active in one function")
 					} else {
+						li := Locksets(home, nil)
 						// one hold: same block region without an intervening Unlock
 						same := li.Held(stS, "f.useMu") == 2 && li.Held(stA, "f.useMu") == 2
 						between := false
-						for _, u := range CallsIn(fn, OnFieldAny(Callee("(*sync.RWMutex).Unlock"), "useMu")) {
+						for _, u := range CallsIn(home, OnFieldAny(Callee("(*sync.RWMutex).Unlock"), "useMu")) {
 							ui := u.(ssa.Instruction)
 							if (Dominates(stS, ui) && Dominates(ui, stA)) || (Dominates(stA, ui) && Dominates(ui, stS)) {
 								between = true
@@ -483,7 +487,7 @@ func c07() []*Ob {
 						} else {
 							c.Violation("lock:proxyFrac.Seal:atomic-handover", stS.Pos(), "f.sealed and f.active are not updated under a single write-lock hold: a reader can see neither or both")
 						}
-						PrecedeI(c, fn, func(in ssa.Instruction) bool { return in == stA }, "f.active = nil", CallSel(Callee("(*frac.Active).Release")), "active.Release()")
+						PrecedeI(c, fn, FieldStore("fracmanager.proxyFrac", "active"), "f.active = nil", CallSel(Callee("(*frac.Active).Release")), "active.Release()")
 					}
 				}
 				if fn := c.Fn("(*fracmanager.FracManager).Append"); fn != nil {
